@@ -377,20 +377,38 @@ func (r *row) GetValueAtPath(path string) (Value, bool) {
 	keys := strings.Split(path, ".")
 
 	var row Row = r
-	for _, key := range keys {
+
+	for i, key := range keys {
 		value, exist := row.GetValue(key)
 		if !exist {
 			return nil, false
 		}
 
+		if i == len(keys)-1 {
+			return value, true
+		}
+
+		// descend through a row used as a value and through a value holding a row (a parsed object)
 		if cast, ok := value.(Row); ok {
 			row = cast
+		} else if cast, ok := rawRow(value); ok {
+			row = cast
 		} else {
-			return value, true
+			return nil, false
 		}
 	}
 
 	return row, true
+}
+
+func rawRow(value Value) (Row, bool) {
+	if value == nil {
+		return nil, false
+	}
+
+	cast, ok := value.Raw().(Row)
+
+	return cast, ok
 }
 
 func (r *row) FindValuesAtPath(path string) ([]Value, bool) {
@@ -409,9 +427,15 @@ func (r *row) FindValuesAtPath(path string) ([]Value, bool) {
 		return cast.FindValuesAtPath(keys[1])
 	}
 
+	if value == nil {
+		return nil, false
+	}
+
 	result := []Value{}
 
 	switch typedValue := value.Raw().(type) {
+	case Row:
+		return typedValue.FindValuesAtPath(keys[1])
 	case []interface{}:
 		for _, row := range typedValue {
 			if cast, ok := row.(Row); ok {
@@ -421,7 +445,7 @@ func (r *row) FindValuesAtPath(path string) ([]Value, bool) {
 			}
 		}
 	default:
-		return []Value{value}, true
+		return nil, false
 	}
 
 	return result, true
